@@ -61,10 +61,14 @@ type scheduler struct {
 	wgs     map[*value]*wgState
 	raced   map[string]bool
 	nsched  int
+	// preemption bounding (CHESS): a schedule may switch away from a
+	// thread that could continue at most maxPreempt times
+	maxPreempt int
+	preempts   int
 }
 
 func newScheduler(i *interpreter) *scheduler {
-	s := &scheduler{i: i, shadows: map[any]*shadow{}, mutexes: map[*value]*mutexState{}, wgs: map[*value]*wgState{}, raced: map[string]bool{}}
+	s := &scheduler{i: i, maxPreempt: 2, shadows: map[any]*shadow{}, mutexes: map[*value]*mutexState{}, wgs: map[*value]*wgState{}, raced: map[string]bool{}}
 	main := &thread{id: 0, wake: make(chan struct{}, 1), vc: map[int]int{0: 1}, started: true, what: "main"}
 	s.threads = []*thread{main}
 	s.cur = main
@@ -208,8 +212,15 @@ func (s *scheduler) pick(me *thread) *thread {
 	}
 	// the current thread first, so that alternative 0 is "no preemption"
 	sort.SliceStable(cands, func(a, b int) bool { return cands[a] == me && cands[b] != me })
+	meRunnable := cands[0] == me
+	if meRunnable && s.preempts >= s.maxPreempt {
+		return me
+	}
 	s.nsched++
 	alt := s.i.ex.Choose(len(cands), DkSched, "")
+	if meRunnable && cands[alt] != me {
+		s.preempts++
+	}
 	return cands[alt]
 }
 
@@ -439,7 +450,6 @@ func init() {
 		m.locked = false
 		m.vc = joinVC(m.vc, s.cur.vc)
 		s.cur.vc[s.cur.id]++
-		s.yield()
 		return nil
 	}
 	rlock := func(fr *frame, args []value) value {
@@ -460,7 +470,6 @@ func init() {
 		m.readers--
 		m.rvc = joinVC(m.rvc, s.cur.vc)
 		s.cur.vc[s.cur.id]++
-		s.yield()
 		return nil
 	}
 	externals["(*sync.Mutex).Lock"] = lock
@@ -481,7 +490,6 @@ func init() {
 			w.vc = joinVC(w.vc, s.cur.vc)
 			s.cur.vc[s.cur.id]++
 		}
-		s.yield()
 		return nil
 	}
 	externals["(*sync.WaitGroup).Done"] = func(fr *frame, args []value) value {
